@@ -40,6 +40,16 @@ THEOREMS2 = {
     "C16": ["KaVerif.PIPE_elementary", "KaVerif.PIPE_elementary_call", "KaVerif.PIPE_elementary_domain",
             "KaVerif.PIPE_elementary_finite"],
 }
+# Props/PipelineArr.lean: the refinement gaps Pipeline2 left open (comprehensions and their scoping, median,
+# range(lo, hi, step) on every numeric kind, aggregates on same-dimension quantities)
+LEAN_MODULES3 = ["KaVerif.Props.PipelineArr"]
+THEOREMS3 = {
+    "C12": ["KaVerif.PIPE_comprehension", "KaVerif.PIPE_comprehension_rejects", "KaVerif.PIPE_comprehension_closed_form",
+            "KaVerif.PIPE_comprehension_session", "KaVerif.PIPE_comprehension_arith",
+            "KaVerif.PIPE_median", "KaVerif.PIPE_median_exact", "KaVerif.PIPE_range_step_float",
+            "KaVerif.PIPE_qty_aggregates"],
+    "C14": ["KaVerif.PIPE_comprehension_scope", "KaVerif.PIPE_comprehension_session"],
+}
 RULE = ("whole programs (1-4 statements, depth <= 4) mixing arithmetic on ints / fractions / floats / scientific and based literals, "
         "variables and assignments across ';', factorials and binomials, quantities with units / prefixes / compound signatures / "
         "temperatures and 'to', intervals and their functions, arrays / ranges / comprehensions / aggregates, comparisons incl. chained "
